@@ -308,7 +308,7 @@ pub fn plan(property: &str, tier: Tier) -> Option<Plan> {
             "one case = one block shape (1..K slices, empty to full slices, optional optimistic-handover parent switch, or one of eight malformations signed by the leader) delivered to a real BlockstoreImpl with >=32 shreds of every slice in a sampled order with duplicates and conflicting material placed anywhere; exactly-once events, hash/parent, serving of every shred/root/proof, fast path equality, and exactly one InvalidBlock for malformed blocks are checked; distinct = (malformation, slices, ingest outcome histogram)"),
         "C16" => (if q { 6_000 } else { 120_000 }, if q { 60 } else { 1200 }, "exploration",
             "one case = 2..40 independently constructed disseminator instances (Trivial, Rotor::new, Rotor::new_fa1, Turbine with fanout 1..n or 200; constructed at different simulated times in a sampled order, caches cold/warm, sampled call order) on a loss-free network with arbitrary delays; a leader sends every shred of a block; every other validator must receive each shred, exactly once under Turbine/Trivial and through at most one relay broadcast under Rotor; non-trivial = n >= 3; distinct = (disseminator, n, stakes, slot)"),
-        "C14" => (if q { 1_500 } else { 60_000 }, if q { 120 } else { 1500 }, "exploration",
+        "C14" => (if q { 4_000 } else { 120_000 }, if q { 120 } else { 1500 }, "exploration",
             "one case = one real Repair::repair_loop repairing one 1..K-slice block (honest or Byzantine leader, optionally with dissemination data already present) from 2-7 peers that are real RepairRequestHandlers with or without the block, silent nodes, or liars (wrong variant, aliased/wrong indices, wrong root, mutated proofs, other block's material, alternative last-flag signing, duplicates, unsolicited answers, delays) over a network with loss/duplication/stragglers until a drawn stabilisation time; checked: announced/stored block hashes to the requested id, no panic, dissemination data untouched, repair completes within 30*REPAIR_TIMEOUT after stabilisation while honest peers holding the block carry >= 30% of the peers' stake, and an honest responder answers every request shape with verifying data or a NACK; non-trivial = a liar or an honest holder took part; distinct = (roles, slices, liar fault kinds fired, outcome)"),
         "C15" => (if q { 20_000 } else { 600_000 }, if q { 90 } else { 1500 }, "exploration",
             "two variants: (1) the repair world of C14 with liars presenting aliased indices (index + k*2^height), non-last slices as last, mutated proofs; the requester must never request a slice beyond the block's true last slice; (2) trees of 1..1024 (thorough 4096) leaves incl. powers of two +-1: every created proof verifies, check_proof_last holds exactly for the last leaf, and every mutation (leaf, swapped leaf, index inside/beyond width/huge, root bit, proof element bit, proof length 0..33) must fail both verifiers without panicking; distinct = (leaf count, index, mutation classes)"),
